@@ -484,6 +484,50 @@ def gen_exclusion_case(rng, schema):
     return None
 
 
+def gen_blocked_behind_case(rng, schema):
+    """(doc, from, to, mark M): text runs that carry a mark B which excludes M (while M does not exclude B) *and* an
+    unrelated mark Z whose rank lies between M's and B's — so that, walking the set in rank order, M's place is found
+    (before Z) before the blocker B is reached — alternating with runs that carry Z alone.  The mark sets are built in rank
+    order by hand, not with add_to_set.  None when the schema has no such constellation."""
+    mts = list(schema.marks.values())
+    text_t = schema.nodes.get("text")
+    if text_t is None:
+        return None
+    top = schema.top_node_type
+    blocks = [t for t in schema.nodes.values() if t.is_textblock and not t.has_required_attrs()
+              and t.content_match.match_type(text_t) is not None and top.content_match.match_type(t) is not None]
+    triples = []
+    for m_t in mts:
+        for b_t in mts:
+            if b_t is m_t or not b_t.excludes(m_t) or m_t.excludes(b_t) or b_t.rank < m_t.rank:
+                continue
+            for z_t in mts:
+                if z_t is m_t or z_t is b_t or not (m_t.rank < z_t.rank < b_t.rank):
+                    continue
+                if any(a.excludes(b) for a, b in ((z_t, m_t), (m_t, z_t), (z_t, b_t), (b_t, z_t))):
+                    continue
+                triples.append((m_t, z_t, b_t))
+    rng.shuffle(triples)
+    for m_t, z_t, b_t in triples:
+        bts = [t for t in blocks if all(t.allows_mark_type(x) for x in (m_t, z_t, b_t))]
+        if not bts:
+            continue
+        bt = rng.choice(bts)
+        M, Z, B = (Mark(x, gen_attrs(rng, x)) for x in (m_t, z_t, b_t))
+        try:
+            segs = []
+            for i in range(rng.randint(3, 5)):
+                ms = [Z, B] if i % 2 == 0 else [Z]
+                segs.append(schema.text(gen_text(rng, 1, 2, plain=True), ms))
+            doc = top.create_checked(None, Fragment.from_array([bt.create_checked(None, Fragment.from_array(segs))]))
+            doc.check()
+        except Exception:  # noqa: BLE001
+            continue
+        size = doc.content.size
+        return doc, rng.choice([0, 1, 1]), size - rng.choice([0, 1, 1]), M
+    return None
+
+
 def frag_boundaries(fragment):
     """positions in a fragment that are not inside text (between children, at content starts / ends)"""
     out = []
